@@ -182,7 +182,7 @@ class C01(Machine):
     probe_names = ("query_after_mutation", "value_compared_after_mutation",
                    "both_raised",
                    "projection_twin_used", "discard_rebuild",
-                   "multi_object", "reinit_mutator")
+                   "multi_object", "reinit_mutator", "objects_of_equal_shape")
     # informational (zero is fine): query_order_effect, valid_mutator_raised,
     # nondeterministic_query, projection_not_comparable
     real_vs_stub = {"real": ["every memoising class with its public "
@@ -344,8 +344,12 @@ class C01(Machine):
         build_ms = {}
         for i in range(nobj):
             build_ms[i] = a.randrange(10 ** 9)
-            ops.append({"op": "build", "obj": i, "cls": spec.name,
-                        "ms": build_ms[i]})
+            bop = {"op": "build", "obj": i, "cls": spec.name,
+                   "ms": build_ms[i]}
+            if i and a.random() < 0.5:
+                # same sizes and options as the first object, other data
+                bop["shape_of"] = build_ms[0]
+            ops.append(bop)
             live.append(i)
         qs = state_queries_for(spec)
         muts = spec.mutators()
@@ -423,6 +427,12 @@ class C01(Machine):
                         cls = op["cls"]
                     spec = BY_NAME[cls]
                     model = spec.gen_model(random.Random(op["ms"]))
+                    if op.get("shape_of") is not None:
+                        from registry.specs import reseed
+                        model = reseed(
+                            spec.gen_model(random.Random(op["shape_of"])),
+                            random.Random(op["ms"]))
+                        R.probe("objects_of_equal_shape")
                     with cwd(odir):
                         obj = C.call(spec.build, model)
                     sig.append(f"{k}:{cls}")
